@@ -7,6 +7,7 @@
 import Golib.Gen.C19
 import Golib.Cal.Helper
 import Golib.Cal.DateFormat
+import Golib.Cal.PadIR
 
 namespace C19Gen
 open Cal
@@ -41,6 +42,44 @@ theorem gen_pieces :
     Gen.C19.pieces_logtime = ["call:mk2", "lit::", "call:mk2", "lit::", "call:mk2", "lit:.", "call:mk3"] ∧
     Gen.C19.pieces_ymdhms = ["field:date", "call:mk2", "call:mk2", "call:mk2"] ∧
     Gen.C19.pieces_hhmmss = ["sprintf:%02d%02d%02d"] ∧ Gen.C19.pieces_hhmm = ["sprintf:%02d%02d"] := by decide
+
+/-! ### interpreted obligations: the transcribed bodies, given a semantics (Golib.Cal.PadIR), compute
+    the model's functions -/
+
+/-- the body of `mk2` in the source computes the model's `mk2` on every two-digit argument
+    (hours, minutes, seconds are < 100), the body of `mk3` the model's `mk3` on every
+    millisecond value -/
+theorem gen_mk2 : ∀ n, n < 100 → evalPad Gen.C19.mk2 n = some (mk2 n) := by decide
+
+theorem gen_mk3 : ∀ n, n < 1000 → evalPad Gen.C19.mk3 n = some (mk3 n) := by decide +kernel
+
+/-- the Sprintf formats of the source, interpreted, are the model's `Day.date`, `hhmmss`, `hhmm`
+    bodies — for all arguments -/
+theorem gen_sprintf (a b c : Nat) :
+    evalFmt (Gen.C19.fmt_open.map Char.ofNat) [a, b, c] = some (itoa a ++ pad0 2 b ++ pad0 2 c) ∧
+    evalFmt (Gen.C19.fmt_hhmmss.map Char.ofNat) [a, b, c] = some (pad0 2 a ++ pad0 2 b ++ pad0 2 c) ∧
+    evalFmt (Gen.C19.fmt_hhmm.map Char.ofNat) [a, b] = some (pad0 2 a ++ pad0 2 b) := by
+  simp [evalFmt, isDig, Gen.C19.fmt_open, Gen.C19.fmt_hhmmss, Gen.C19.fmt_hhmm]
+
+/-- the piece sequences of the four buffer-writing helpers, run with the transcribed pad
+    functions, produce the strings of the model (`datetime`, `timestampWith mk3`, `logtimeWith mk3`,
+    `ymdhms` bodies) for every date string and every time of day -/
+theorem gen_programs (date : List Char) (hh mm ss sss : Nat) (h1 : hh < 100) (h2 : mm < 100) (h3 : ss < 100)
+    (h4 : sss < 1000) :
+    evalPieces (evalPad Gen.C19.mk2) (evalPad Gen.C19.mk3) Gen.C19.prog_datetime date [hh, mm, ss] =
+      some (date ++ ' ' :: mk2 hh ++ ':' :: mk2 mm ++ ':' :: mk2 ss) ∧
+    evalPieces (evalPad Gen.C19.mk2) (evalPad Gen.C19.mk3) Gen.C19.prog_timestamp date [hh, mm, ss, sss] =
+      some (date ++ ' ' :: mk2 hh ++ ':' :: mk2 mm ++ ':' :: mk2 ss ++ '.' :: mk3 sss) ∧
+    evalPieces (evalPad Gen.C19.mk2) (evalPad Gen.C19.mk3) Gen.C19.prog_logtime date [hh, mm, ss, sss] =
+      some (mk2 hh ++ ':' :: mk2 mm ++ ':' :: mk2 ss ++ '.' :: mk3 sss) ∧
+    evalPieces (evalPad Gen.C19.mk2) (evalPad Gen.C19.mk3) Gen.C19.prog_ymdhms date [hh, mm, ss] =
+      some (date ++ mk2 hh ++ mk2 mm ++ mk2 ss) := by
+  have a := gen_mk2 hh h1
+  have b := gen_mk2 mm h2
+  have c := gen_mk2 ss h3
+  have d := gen_mk3 sss h4
+  simp [evalPieces, Gen.C19.prog_datetime, Gen.C19.prog_timestamp, Gen.C19.prog_logtime,
+    Gen.C19.prog_ymdhms, a, b, c, d]
 
 /-- format and Parse use the same seven letters with the model's widths -/
 theorem gen_widths : Gen.C19.formatWidths = Gen.C19.parseWidths ∧ Gen.C19.formatWidths.length = 7 ∧
